@@ -1691,7 +1691,7 @@ BUILTIN_NAMES = {'len', 'isinstance', 'str', 'list', 'set', 'dict', 'tuple', 're
                  'zip', 'range', 'sorted', 'next', 'iter', 'bool', 'int', 'map', 'getattr', 'hasattr',
                  'cast', 'print', 'min', 'max', 'any', 'all', 'sum', 'repr', 'float', 'type',
                  # specification vocabulary
-                 'implies', 'has', 'old', 'at_iteration_start', 'init', 'last', 'dict_eq', 'forall_keys', 'forall_idx', 'exists_idx', 'is_str', 'is_int', 'is_none',
+                 'implies', 'has', 'old', 'at_iteration_start', 'init', 'last', 'dict_eq', 'forall_keys', 'dict_wf', 'forall_idx', 'exists_idx', 'is_str', 'is_int', 'is_none',
                  'is_tuple', 'is_list', 'is_float', 'is_bool', 'is_obj', 'is_inst', 'in_re',
                  'set_of_seq', 'set_add', 'set_union', 'set_where', 'subset', 'dict_has', 'dict_get', 'dict_keys', 'dict_values_str',
                  'mk', 'noop', 'norm_has', 'norm_get', 'reif_has', 'reif_get', 'dereif_has', 'dereif_get',
